@@ -624,6 +624,10 @@ func runCLI(c *harness.Ctx, sc scenario, s, slot int) {
 	switch cmdName {
 	case "make":
 		args = []string{"make", "-n", fmt.Sprint(sc.n), "-m", "1:2:4", "-s", dstSrv.URL, "-e", "1", idxFile, file}
+		if rng.Intn(3) == 0 {
+			// reporting option: what the command does and what its exit status says must not depend on it
+			args = append([]string{"make", "--print-stats"}, args[1:]...)
+		}
 	case "chop":
 		dsu.Must(dsu.WriteIndex(idxFile, sc.idx))
 		args = []string{"chop", "-n", fmt.Sprint(sc.n), "-s", dstSrv.URL, "-e", "1", idxFile, file}
